@@ -6,6 +6,7 @@ branch conditions `_guard` incl. the code's 1e-8 tolerance band, the sign checks
 `erf : ℝ → ℝ` and `sici : ℝ → ℝ × ℝ` (`sici x = (Si x, Ci x)`) are parameters; only the stated facts about them are used.
 -/
 import HypnoModel.Gen.Spacing
+import HypnoModel.Gen.Tokamak
 import HypnoModel.Lemmas.Spacing
 
 namespace HypnoModel.Props.C09
@@ -367,5 +368,37 @@ example : ∃ n lower upper g root : ℝ, 0 < root ∧ upper < lower ∧ lowerEr
 /-- hypotheses of `bothSici_endpoints` -/
 example : ∃ (sici : ℝ → ℝ × ℝ) (n root : ℝ), 0 < n ∧ 0 < root ∧ ∀ x, (sici (-x)).2 = (sici x).2 :=
   ⟨fun _ => (0, 0), 4, 1, by norm_num, by norm_num, fun _ => rfl⟩
+
+/-! ## The segments the real describe* code builds (GENERATED `Gen.Tokamak`)
+
+Every radial segment of describeSingleNull / describeDoubleNull as written in the source.  One and the same expression is used as the
+gradient at every segment end that lies on a separatrix (same gradient on both sides), every such end has a gradient, and the
+separatrix multiplier is applied to that expression exactly once, in place, before any segment reads it. -/
+section Segments
+open Gen.Tokamak
+
+/-- the source expressions that denote a separatrix value -/
+def sepNames : List String := ["psi_sep", "self.psi_sep[0]", "self.psi_sep[1]", "self.psi_sep[-1]", "upper_psi", "lower_psi"]
+
+def gradsOf (segs : List (String × List (String × String))) : List String :=
+  (segs.flatMap fun s => s.2.filterMap fun kv => if kv.1 = "grad_start" ∨ kv.1 = "grad_end" then some kv.2 else none).eraseDups
+
+/-- a segment end on a separatrix carries a gradient -/
+def endsCovered (segs : List (String × List (String × String))) : Bool :=
+  segs.all fun s =>
+    ((s.2.lookup "psi_start").all fun v => !(sepNames.contains v) || (s.2.lookup "grad_start").isSome) &&
+    ((s.2.lookup "psi_end").all fun v => !(sepNames.contains v) || (s.2.lookup "grad_end").isSome)
+
+theorem segments_one_gradient : (gradsOf segmentsSingleNull).length = 1 ∧ (gradsOf segmentsDoubleNull).length = 1 := by decide
+theorem segments_ends_covered : endsCovered segmentsSingleNull = true ∧ endsCovered segmentsDoubleNull = true := by decide
+/-- the separatrix multiplier is applied to that one gradient exactly once, in place, after its definition -/
+theorem segments_multiplier_once :
+    (gradHistorySingleNull.map fun h => (h.1, h.2.1)) = [(((gradsOf segmentsSingleNull).headD ""), "="), (((gradsOf segmentsSingleNull).headD ""), "*=")] ∧
+    (gradHistoryDoubleNull.map fun h => (h.1, h.2.1)) = [(((gradsOf segmentsDoubleNull).headD ""), "="), (((gradsOf segmentsDoubleNull).headD ""), "*=")] ∧
+    (gradHistorySingleNull.getLast?.map fun h => h.2.2) = some "self.user_options.psi_spacing_separatrix_multiplier" ∧
+    (gradHistoryDoubleNull.getLast?.map fun h => h.2.2) = some "self.user_options.psi_spacing_separatrix_multiplier" := by decide
+
+
+end Segments
 
 end HypnoModel.Props.C09
